@@ -1,5 +1,6 @@
 SPECIFICATION Spec
 CONSTANT Deviations = {}
+CONSTANT Cap = 10000
 CONSTANT Scenarios <- AllScenarios
 CONSTANT ScCalls <- C01Calls
 CONSTANT ScHost <- C01Host
